@@ -164,6 +164,9 @@ func (e event) String(alpha []upd) string {
 	if e.Kind == "obs" {
 		return fmt.Sprintf("node%d observes %s", e.I, alpha[e.U])
 	}
+	if e.Kind == "unload" {
+		return fmt.Sprintf("node%d's Raft host stops listing the shard (unloaded, a lifecycle event fires Notify)", e.I)
+	}
 	if e.Kind != "gossip" {
 		return fmt.Sprintf("node%d is told by memberlist: member with node id %d %s", e.I, e.J, e.Kind)
 	}
@@ -192,6 +195,14 @@ func (w *world) apply(alpha []upd, e event) {
 		w.nodes[e.I].Notify()
 		w.sets[e.I][alpha[e.U]] = true
 		w.local[e.I] = e.U
+		return
+	}
+	if e.Kind == "unload" {
+		// the node's own Raft host no longer lists the shard (stopped by the table manager, not yet
+		// started) and a Raft lifecycle event calls Notify: what the node knows must stay
+		w.nodes[e.I].SetLocal(nil)
+		w.nodes[e.I].Notify()
+		w.local[e.I] = -1
 		return
 	}
 	if e.Kind != "gossip" {
@@ -247,6 +258,7 @@ func runCluster(r *evid.Run, alpha []upd, nNodes, depth int, localAlpha []int) {
 				events = append(events, event{"gossip", i, j, 0})
 			}
 		}
+		events = append(events, event{"unload", i, 0, 0})
 		// memberlist events about the members that lead some term of the ground truth
 		for _, kind := range []string{"leave", "join", "update"} {
 			for _, id := range []int{1, 2} {
@@ -586,7 +598,7 @@ func Run(r *evid.Run) {
 	if r.Thorough() {
 		depth = 5
 	}
-	r.Rule(fmt.Sprintf("(a) single node: every sequence (with repetition) of length 0..%d over %d updates consistent with a ground truth of terms 1..3 (one leader per term) and config indices 1..3 incl. no-leader and empty updates, fed to the real shardView one per call and all in one call; after every step the view must equal (leader of the highest leader-bearing term, membership of the highest config index) of the SET of updates delivered - hence order- and repetition-independent - and term/leader/config index never regress. (b) cluster: BFS over {node i observes a local Raft update (through the real toShardViewList/Cluster.Notify), node i gossips to node j (real delegate LocalState -> JSON -> MergeRemoteState), memberlist tells node i that a member left / joined / was updated (real Cluster.NotifyLeave/NotifyJoin/NotifyUpdate)} with a visited set on the tuple of complete views + local observations; same invariants per node against the set of causally delivered updates; agreement after all-pairs gossip from every new state. (c) concurrent callers: a view holding nothing or one update, two (thorough: also three) writers each calling the real update() with one update of a 5-update subset (all unordered combinations) next to a reader that looks twice: every interleaving at statement granularity (points before every statement of update and shardInfo) up to 2 preemptions (thorough: 4), the view's RWMutex made cooperative by the build overlay; the final view must be the expected one of the set and the reader never sees term/leader/config index regress. (d) response headers of a real engine: a fixed client program (range, put, streamed read of three messages pulled with other calls in between, transaction, delete) while the node's view learns a newer leader before every step in turn: the terms in the headers, in the order they are handed out, never decrease. Non-trivial: sequence contains a leader-bearing update; distinct = distinct final views", depth, len(alpha)))
+	r.Rule(fmt.Sprintf("(a) single node: every sequence (with repetition) of length 0..%d over %d updates consistent with a ground truth of terms 1..3 (one leader per term) and config indices 1..3 incl. no-leader and empty updates, fed to the real shardView one per call and all in one call; after every step the view must equal (leader of the highest leader-bearing term, membership of the highest config index) of the SET of updates delivered - hence order- and repetition-independent - and term/leader/config index never regress. (b) cluster: BFS over {node i observes a local Raft update (through the real toShardViewList/Cluster.Notify), node i gossips to node j (real delegate LocalState -> JSON -> MergeRemoteState), memberlist tells node i that a member left / joined / was updated (real Cluster.NotifyLeave/NotifyJoin/NotifyUpdate), node i's own Raft host stops listing the shard while a lifecycle event calls Notify} with a visited set on the tuple of complete views + local observations; same invariants per node against the set of causally delivered updates; agreement after all-pairs gossip from every new state. (c) concurrent callers: a view holding nothing or one update, two (thorough: also three) writers each calling the real update() with one update of a 5-update subset (all unordered combinations) next to a reader that looks twice: every interleaving at statement granularity (points before every statement of update and shardInfo) up to 2 preemptions (thorough: 4), the view's RWMutex made cooperative by the build overlay; the final view must be the expected one of the set and the reader never sees term/leader/config index regress. (d) response headers of a real engine: a fixed client program (range, put, streamed read of three messages pulled with other calls in between, transaction, delete) while the node's view learns a newer leader before every step in turn: the terms in the headers, in the order they are handed out, never decrease. Non-trivial: sequence contains a leader-bearing update; distinct = distinct final views", depth, len(alpha)))
 	total := par.SeqCount(len(alpha), depth)
 	par.For(total, r.Expired, func(i int64) {
 		seq := par.SeqAt(len(alpha), depth, i)
